@@ -66,6 +66,10 @@ WInScope(g) == /\ \A v \in Spiders(g) : g.ty[v] \in {"Z", "X"} /\ g.ph[v] \in {0
 \* a new spider of the opposite colour and phase 0 is put in its place -- unless the common type is
 \* not Z/X (`_ => continue`, line 872), in which case the edge stays removed and `modified` is not
 \* set.  For a boundary-boundary wire (type B at both ends) this deletes the wire: see BipSound.
+\* (Genuine defect, see work/c20_fix_3_bbwire.diff; once the code takes the `match` before the
+\* remove_edge, the second branch below becomes [g |-> g, mod |-> FALSE] -- until then Trace_Webs
+\* reports the difference as L1 drift BipAsTranscribed on diagrams with such a wire, and
+\* MC_Webs_bb.cfg, which is not part of the plan, shows TLC's counterexample to BipSound.)
 \* The edge type of the removed edge is ignored (add_edge = plain); out of scope here (plain edges).
 MBOne(g, e) ==
   LET u == Min(e)
